@@ -73,14 +73,17 @@ func (ca *T) InitContext(ctx context.Context) (context.Context, error) {
 	if !ok {
 		return nil, errNoLocalStorage
 	}
-	certsPath := path.Join(sto.Root, ca.CA.SigningCertDirInGCS)
-	if err := os.Mkdir(certsPath, 0755); err != nil && !os.IsExist(err) {
-		return nil, fmt.Errorf("failed to create %q: %v", certsPath, err)
-	}
-	// Only check CA certs if not bootstrapping.
+	// Only check CA certs if not bootstrapping, and only prepare directories when bootstrapping:
+	// every other command (a dry run or a measurement-only run included) finds the authority as it
+	// is and must not create anything next to it.
 	if _, err := rotate.FromBootstrapContext(ctx); err != nil {
 		if err := ca.checkCerts(ctx); err != nil {
 			return nil, err
+		}
+	} else {
+		certsPath := path.Join(sto.Root, ca.CA.SigningCertDirInGCS)
+		if err := os.Mkdir(certsPath, 0755); err != nil && !os.IsExist(err) {
+			return nil, fmt.Errorf("failed to create %q: %v", certsPath, err)
 		}
 	}
 	return ca.CA.InitContext(ctx)
